@@ -2,7 +2,7 @@
 # usage: try_seed.sh <seeded/dir> <PROP> [tier]
 # Applies the seeded change to a scratch copy of /repo's HEAD (outside /repo and /verif), runs the check with
 # PYVC_SRC pointing at it, removes the copy. (Equivalent to git -C /repo apply / checkout, without touching /repo.)
-D=$1; P=$2; T=${3:-quick}
+D=$(realpath $1); P=$2; T=${3:-quick}
 W=$(mktemp -d /tmp/mutant.XXXXXX)
 git -C /repo archive HEAD | tar -x -C $W
 if ! (cd $W && git apply $D/patch.diff 2>/dev/null); then echo "PATCH-DOES-NOT-APPLY $D (rebase it onto /repo HEAD)"; rm -rf $W; exit 2; fi
